@@ -142,7 +142,7 @@ def _parse_out(line):
 FATAL = ("dead", "loss", "norecip", "panic", "oos", "timeout", "hang", "term")
 
 
-def canon(obs, mode, drop=("T", "N")):
+def canon(obs, mode, drop=("T", "N", "Z")):
     """Canonical form for comparison.  mode 'seq': the ordered log; 'multiset': sorted log per
     command; for a command that fails with a schedule-dependent cut (panic / no recipient) only the
     result is kept."""
